@@ -57,7 +57,10 @@ class AstPrinter(AstVisitor):
         self.curr_line = 1 if update_ast_line_nos else None
 
     def post_process(self) -> None:
-        self.result = re.sub(r'\s+\n', '\n', self.result)
+        # Blanks at the end of a line and empty lines are dropped by newline()
+        # while printing; doing it over the finished text would also change
+        # the contents of multi-line strings.
+        pass
 
     def append(self, data: str, node: mparser.BaseNode) -> None:
         self.last_level = node.level
@@ -72,7 +75,7 @@ class AstPrinter(AstVisitor):
         self.append(data + ' ', node)
 
     def newline(self) -> None:
-        self.result += '\n'
+        self.result = self.result.rstrip() + '\n'
         self.is_newline = True
         if self.curr_line is not None:
             self.curr_line += 1
@@ -271,7 +274,7 @@ class AstPrinter(AstVisitor):
             if break_args:
                 self.newline()
         if break_args:
-            self.result = re.sub(r', \n$', '\n', self.result)
+            self.result = re.sub(r',\n$', '\n', self.result)
         else:
             self.result = re.sub(r', $', '', self.result)
 
